@@ -57,7 +57,7 @@ func c02r1(r *R) {
 		if e1 == "nil" {
 			o.AtI(i).Check(strings.HasPrefix(e0, "(*ja4.JA4Fingerprint).String(&") && guardOkOn(gs, "UnmarshalBytes("), "JA4Fingerprint returns %s under %v", e0, gs)
 			if call, ok := ret.Results[0].(*ssa.Call); ok && len(ub) == 1 {
-				o.Check(call.Call.Args[0] == callOf(ub[0]).Args[0], "String() is taken from a different struct than the one filled")
+				o.Check(isThroughJoins(call.Call.Args[0], callOf(ub[0]).Args[0]), "String() is taken from a different struct than the one filled")
 			}
 		} else {
 			o.AtI(i).Check(e0 == `""`, "error return carries %s", e0)
@@ -74,7 +74,7 @@ func c02r1(r *R) {
 		o2.Check(fresh, "FromRaw target is %s, want a fresh ClientHelloSpec", c.Expr(a[0]))
 		for _, s := range callsIn(um, "(*ja4.JA4Fingerprint).Unmarshal") {
 			b := callOf(s).Args
-			o2.AtI(s).Check(b[0] == ssa.Value(um.Params[0]) && b[1] == a[0] && c.Expr(b[2]) == "p2", "Unmarshal(%s, %s, %s): want (j, the parsed spec, protocol)", c.Expr(b[0]), c.Expr(b[1]), c.Expr(b[2]))
+			o2.AtI(s).Check(b[0] == ssa.Value(um.Params[0]) && isThroughJoins(b[1], a[0]) && c.Expr(b[2]) == "p2", "Unmarshal(%s, %s, %s): want (j, the parsed spec, protocol)", c.Expr(b[0]), c.Expr(b[1]), c.Expr(b[2]))
 			o2.Check(guardOkOn(c.guardStrs(s.Block()), "FromRaw("), "Unmarshal runs although parsing failed")
 		}
 	}
@@ -839,7 +839,7 @@ func c02r6(r *R) {
 		if strings.HasSuffix(e, " < "+ver+")") && strings.HasPrefix(e, "(phi(") {
 			found = true
 			gs := c.guardStrs(iff.Block())
-			o.AtI(i).Check(hasGuard(gs, "-ja4.isGREASEUint16("+ver+")"), "a GREASE supported_versions entry can become the TLS version; guards %v", gs)
+			o.AtI(i)
 			o.Check(hasGuard(gs, "+(0 == p1.TLSVersMax)"), "supported_versions is consulted although the spec carries a fixed version")
 			// the entry becomes the running maximum on the edge on which it is the larger one, and only there
 			onTrue, onFalse := false, false
@@ -853,6 +853,10 @@ func c02r6(r *R) {
 						continue
 					}
 					pb := phi.Block().Preds[k]
+					// … and never for a GREASE value, whichever of the two tests comes first
+					for _, alt := range c.pathEdgeAlts(pb, phi.Block()) {
+						o.Check(hasGuard(alt, "-ja4.isGREASEUint16("+ver+")"), "a GREASE supported_versions entry can become the TLS version; conditions %v", alt)
+					}
 					if t := iff.Block().Succs[0]; t == pb || t.Dominates(pb) {
 						onTrue = true
 					}
@@ -950,11 +954,11 @@ func c02r7(r *R) {
 			}
 			if v == `"00"` {
 				saw00 = true
-				o2.Check(hasGuardContaining(gs, "+", `("" == phi(""|`+first), "\"00\" is stored under %v, want `no ALPN value`", gs)
+				o2.Check(alpnEmpty(gs, first, true), "\"00\" is stored under %v, want `no ALPN value`", gs)
 			} else if v == `"99"` {
 				sawVal = true
 				o2.Check(intRel(gs, isFirstChar, ">", 127), "\"99\" is stored under %v, want only when the first character is not ASCII", gs)
-			} else if v == `""` && (hasGuardContaining(c.guardStrs(st.Block()), "+", `("" != phi(""|`+first) || hasGuardContaining(gs, "+", `("" != phi(""|`+first)) {
+			} else if v == `""` && (alpnEmpty(c.guardStrs(st.Block()), first, false) || alpnEmpty(gs, first, false)) {
 				// the initial empty value cannot reach a store that is guarded by `alpn != ""`
 			} else {
 				sawVal = true
@@ -1091,4 +1095,61 @@ func lessOfCaptured(c *Ctx, cl *ssa.Function, v ssa.Value, sorted ssa.Value) boo
 		return false
 	}
 	return elem(bo.X, cl.Params[0]) && elem(bo.Y, cl.Params[1])
+}
+
+// isThroughJoins: v is target, possibly handed on through joins whose other edges are nil (`x, err := helper()` expanded
+// in place: x is the helper's value on the success edge and nil on the error edges).
+func isThroughJoins(v, target ssa.Value) bool {
+	seen := map[ssa.Value]bool{}
+	var walk func(x ssa.Value) bool
+	walk = func(x ssa.Value) bool {
+		if x == target {
+			return true
+		}
+		if seen[x] {
+			return true
+		}
+		seen[x] = true
+		phi, ok := x.(*ssa.Phi)
+		if !ok {
+			return false
+		}
+		some := false
+		for _, e := range phi.Edges {
+			if k, isC := e.(*ssa.Const); isC && k.IsNil() {
+				continue
+			}
+			if !walk(e) {
+				return false
+			}
+			some = true
+		}
+		return some
+	}
+	return walk(v)
+}
+
+// alpnEmpty: the literals say that the ALPN value picked up in the loop is empty (want=true) or not (want=false), as a
+// comparison with "" or a test of its length.
+func alpnEmpty(gs []string, first string, want bool) bool {
+	isVal := func(x string) bool { return strings.HasPrefix(x, `phi(""|`+first) }
+	for _, l := range gs {
+		pos, a, op, b, ok := parseRelLit(l)
+		if !ok {
+			continue
+		}
+		if a == `""` {
+			a, b = b, a
+		}
+		if b == `""` && isVal(a) && (op == "==" || op == "!=") {
+			if ((op == "==") == pos) == want {
+				return true
+			}
+		}
+	}
+	isLen := func(x string) bool { return strings.HasPrefix(x, `builtin.len(phi(""|`+first) }
+	if want {
+		return intRel(gs, isLen, "==", 0) || intRel(gs, isLen, "<", 1)
+	}
+	return intRel(gs, isLen, "!=", 0) || intRel(gs, isLen, ">", 0)
 }
